@@ -1,11 +1,11 @@
 package main
 
 import (
-	"github.com/coocood/freecache"
 	"bytes"
 	"context"
 	"encoding/json"
 	"fmt"
+	"github.com/coocood/freecache"
 	"io"
 	"net/http"
 	"net/http/httptest"
@@ -721,9 +721,15 @@ func agentsCmd(out *cq.Out, seed uint64, tier string) {
 			cache := freecache.NewCache(gossip.DefaultConfig().CacheSize)
 			honest := &protocol.BatchSnapshots{Snapshots: []*protocol.SignedSnapshot{cloneSigned(signed[0]), cloneSigned(signed[total-1])}}
 			for ai, alter := range []func(b *protocol.BatchSnapshots){
-				func(b *protocol.BatchSnapshots) { b.Snapshots[0].Snapshot.HistoryDigest = flip(b.Snapshots[0].Snapshot.HistoryDigest, 3) },
-				func(b *protocol.BatchSnapshots) { b.Snapshots[0].Snapshot.EventDigest = flip(b.Snapshots[0].Snapshot.EventDigest, 9) },
-				func(b *protocol.BatchSnapshots) { b.Snapshots[1].Snapshot.HistoryDigest = flip(b.Snapshots[1].Snapshot.HistoryDigest, 200) },
+				func(b *protocol.BatchSnapshots) {
+					b.Snapshots[0].Snapshot.HistoryDigest = flip(b.Snapshots[0].Snapshot.HistoryDigest, 3)
+				},
+				func(b *protocol.BatchSnapshots) {
+					b.Snapshots[0].Snapshot.EventDigest = flip(b.Snapshots[0].Snapshot.EventDigest, 9)
+				},
+				func(b *protocol.BatchSnapshots) {
+					b.Snapshots[1].Snapshot.HistoryDigest = flip(b.Snapshots[1].Snapshot.HistoryDigest, 200)
+				},
 				func(b *protocol.BatchSnapshots) { b.Snapshots[1].Snapshot.Version++ },
 			} {
 				altered := &protocol.BatchSnapshots{Snapshots: []*protocol.SignedSnapshot{cloneSigned(signed[0]), cloneSigned(signed[total-1])}}
@@ -793,6 +799,15 @@ func agentsCmd(out *cq.Out, seed uint64, tier string) {
 						send(mkAltered(i)) // repeated
 					}
 					got := settle(nAlt)
+					rec2.mu.Lock()
+					distinct := map[string]bool{}
+					for _, a := range rec2.alerts {
+						distinct[a] = true
+					}
+					rec2.mu.Unlock()
+					if len(distinct) != nAlt {
+						out.Violate("C19:pipeline-alert-count:distinct", fmt.Sprintf("%d distinct altered batches were sent through the agent's bus in a burst; alerts were raised for %d of them (%d alerts in all): some batch's check never ran", nAlt, len(distinct), got), map[string]interface{}{"seed": seed, "altered": nAlt, "alerts": got, "distinct": len(distinct)})
+					}
 					if got != nAlt {
 						out.Violate("C19:pipeline-alert-count", fmt.Sprintf("%d distinct altered batches (and 5 repetitions) were sent through the agent's bus in a burst (task manager: 10 tasks per 40 ms tick); %d alerts were raised, expected %d", nAlt, got, nAlt), map[string]interface{}{"seed": seed, "altered": nAlt, "alerts": got})
 					}
